@@ -6,6 +6,7 @@ use serde_json::Value;
 use vmodel::engine::{Failure, ShardCtx, Tier, Verdict};
 
 pub mod common;
+pub mod declcommon;
 pub mod c01;
 pub mod c02;
 pub mod c04;
@@ -13,8 +14,10 @@ pub mod c05;
 pub mod c06;
 pub mod c07;
 pub mod c08;
+pub mod c09;
 pub mod c10;
 pub mod c11;
+pub mod c12;
 pub mod c13;
 pub mod c14;
 pub mod c15;
@@ -62,7 +65,7 @@ pub const DEFAULT: Check = Check {
 };
 
 pub fn all() -> Vec<Check> {
-    vec![c01::check(), c02::check(), c05::check(), c06::check(), c13::check(), c14::check(), c15::check(), c04::check(), c07::check(), c08::check(), c10::check(), c11::check(), c17::check()]
+    vec![c01::check(), c02::check(), c05::check(), c06::check(), c13::check(), c14::check(), c15::check(), c04::check(), c07::check(), c08::check(), c09::check(), c10::check(), c11::check(), c12::check(), c17::check()]
 }
 
 pub fn find(id: &str) -> Option<Check> {
